@@ -12,7 +12,8 @@ CONSTANTS Comp = "multi"
   NBuf = 1
   Gaps <- G_none
   Strict = TRUE
-  D = 4
+  Busy = FALSE
+  D = 3
 INIT Init
 NEXT Next
 VIEW viewE
